@@ -86,7 +86,7 @@ pub fn c08a_css_anchors() {
 
 // ---- C08b: + - % < on numbers with units, through the evaluator's operator kernels ----
 
-use crate::util::{fixed_random_state, fmt_stub, span};
+use crate::util::{fixed_random_state, fmt_stub, is_stubbed, span, yes};
 use grass_compiler::sass_value::{Number, SassNumber, Unit, Value};
 use grass_compiler::verif::{op_add, op_sub, BinaryOp};
 
@@ -127,10 +127,13 @@ fn arith(op: BinaryOp) {
             assert!(calls == 0);
             kani::cover!(true, "rejected");
         }
-        Some(_) => {
+        Some(f) => {
             let needs_conversion = a != NONE && b != NONE && a != b;
             // the right operand, expressed in the left operand's unit
-            let y_in_a = if needs_conversion {
+            let y_in_a = if !is_stubbed() {
+                // native replay: the real convert ran (table lookup), no call log
+                if needs_conversion { y * f } else { y }
+            } else if needs_conversion {
                 assert!(calls == 1, "C08b: operands with different convertible units were not converted");
                 let (arg, from, to) = unsafe { CONVERT_ARG };
                 assert!(arg.to_bits() == y.to_bits() && from == b && to == a,
@@ -166,6 +169,7 @@ fn arith(op: BinaryOp) {
 #[kani::stub(std::hash::RandomState::new, fixed_random_state)]
 #[kani::stub(alloc::fmt::format, fmt_stub)]
 #[kani::stub(grass_compiler::sass_value::Number::convert, convert_stub_log)]
+#[kani::stub(crate::util::is_stubbed, yes)]
 pub fn c08b_add() { arith(BinaryOp::Plus) }
 
 #[kani::proof]
@@ -173,4 +177,71 @@ pub fn c08b_add() { arith(BinaryOp::Plus) }
 #[kani::stub(std::hash::RandomState::new, fixed_random_state)]
 #[kani::stub(alloc::fmt::format, fmt_stub)]
 #[kani::stub(grass_compiler::sass_value::Number::convert, convert_stub_log)]
+#[kani::stub(crate::util::is_stubbed, yes)]
 pub fn c08b_sub() { arith(BinaryOp::Minus) }
+
+// ---- C07c / C08: ordering operators agree with == (numbers within 1e-11 are equal, hence neither < nor >) ----
+
+use crate::c07::powi_stub;
+use grass_compiler::verif::{op_cmp, value_eq};
+
+const MAGS: [f64; 6] = [1.0, 96.0, 0.0, 1.000000000001, 1.5, 0.999999999999];
+
+fn truth(r: &Result<Value, grass_compiler::codemap::Span>) -> Option<bool> {
+    match r { Ok(Value::True) => Some(true), Ok(Value::False) => Some(false), _ => None }
+}
+
+/// MODE 0: <, >, == form a trichotomy; MODE 1: <= is the negation of >; MODE 2: >= is the negation of <
+pub fn order_check<const UA: u8, const UB: u8, const MODE: u8>() {
+    let (i, j): (usize, usize) = (kani::any(), kani::any());
+    kani::assume(i < 6 && j < 6);
+    let (v, w) = (dim(MAGS[i], UA), dim(MAGS[j], UB));
+    let options = grass_compiler::Options::default();
+    let sp = span(4);
+    let (op1, op2) = match MODE { 0 => (BinaryOp::LessThan, BinaryOp::GreaterThan), 1 => (BinaryOp::LessThanEqual, BinaryOp::GreaterThan), _ => (BinaryOp::GreaterThanEqual, BinaryOp::LessThan) };
+    let r1 = op_cmp(op1, &v, &w, &options, sp);
+    let r2 = op_cmp(op2, &v, &w, &options, sp);
+    let comparable = UA == UB || UA == NONE || UB == NONE || (css_class(UA) != 0 && css_class(UA) == css_class(UB));
+    if !comparable {
+        assert!(r1.is_err() && r2.is_err(), "C08: ordering numbers with inconvertible units must be an error");
+        kani::cover!(true, "rejected");
+    } else {
+        let (t1, t2) = (truth(&r1), truth(&r2));
+        assert!(t1.is_some() && t2.is_some(), "C08: ordering convertible numbers failed");
+        let (t1, t2) = (t1.unwrap(), t2.unwrap());
+        if MODE == 0 {
+            assert!(!(t1 && t2), "C07: a < b and a > b both hold");
+            if UA == UB || (UA != NONE && UB != NONE) {
+                // == is defined between these (unitless vs unit is never ==): trichotomy under the tolerance
+                let eq = value_eq(&v, &w);
+                assert!((t1 as u8) + (eq as u8) + (t2 as u8) == 1, "C07: exactly one of <, ==, > must hold (numbers within 1e-11 are equal, so neither < nor >)");
+                kani::cover!(eq && i != j, "fuzzy_equal_pair");
+            }
+        } else {
+            assert!(t1 == !t2, "C07: <= is not the negation of > (or >= of <)");
+        }
+        kani::cover!(t1, "holds");
+    }
+    kani::cover!(true, "end");
+    core::mem::forget((v, w, options));
+}
+
+macro_rules! oinst {
+    ($name:ident, $a:expr, $b:expr, $m:expr) => {
+        #[kani::proof]
+        #[kani::unwind(3)]
+        #[kani::stub(std::hash::RandomState::new, fixed_random_state)]
+        #[kani::stub(alloc::fmt::format, fmt_stub)]
+        #[kani::stub(f64::powi, powi_stub)]
+        #[kani::stub(grass_compiler::sass_value::Number::convert, convert_stub)]
+        pub fn $name() { order_check::<$a, $b, $m>() }
+    };
+}
+oinst!(c07c_order_none_none, 34, 34, 0);
+oinst!(c07c_order_px_px, 0, 0, 0);
+oinst!(c07c_order_in_px, 2, 0, 0);
+oinst!(c07c_order_px_none, 0, 34, 0);
+oinst!(c07c_order_px_em, 0, 7, 0);
+oinst!(c07c_le_px_px, 0, 0, 1);
+oinst!(c07c_ge_px_px, 0, 0, 2);
+oinst!(c07c_le_in_px, 2, 0, 1);
